@@ -229,22 +229,18 @@ func (self *Compiler) compileIdentExpression(node ast.AnalyzedIdentExpression) {
 // Generic expressions.
 //
 
-// Reports whether the code which is generated for a block leaves a value on the stack:
-// only a block with a trailing expression generates a value, unless its type is `null`.
-func blockLeavesValue(node ast.AnalyzedBlock) bool {
-	return node.Expression != nil && node.ResultType.Kind() != ast.NullTypeKind
-}
-
 // Reports whether the code which is generated for an expression leaves a value on the stack by itself.
-// Blocks, `if` and `try` generate what their block generates, a call of a function without result and an assignment generate no value.
+// A block, `if`, `try` or call of type `null` and an assignment generate no value.
+// (The type decides, not the shape: a branch which does not complete, like `{ return 1; }`, has no trailing expression
+// but the other branch of the same `if` generates the value.)
 func leavesValue(node ast.AnalyzedExpression) bool {
 	switch node.Kind() {
 	case ast.BlockExpressionKind:
-		return blockLeavesValue(node.(ast.AnalyzedBlockExpression).Block)
+		return node.(ast.AnalyzedBlockExpression).Block.ResultType.Kind() != ast.NullTypeKind
 	case ast.IfExpressionKind:
-		return blockLeavesValue(node.(ast.AnalyzedIfExpression).ThenBlock)
+		return node.(ast.AnalyzedIfExpression).ResultType.Kind() != ast.NullTypeKind
 	case ast.TryExpressionKind:
-		return blockLeavesValue(node.(ast.AnalyzedTryExpression).TryBlock)
+		return node.(ast.AnalyzedTryExpression).ResultType.Kind() != ast.NullTypeKind
 	case ast.CallExpressionKind:
 		return node.(ast.AnalyzedCallExpression).ResultType.Kind() != ast.NullTypeKind
 	case ast.AssignExpressionKind:
